@@ -26,6 +26,7 @@ type FuncContract struct {
 	ParamNames  []string
 	Requires    []Clause
 	Ensures     []Clause
+	AssumedEnsures []Clause // assumed at call sites, not proved against the body (each one is listed as trusted)
 	Modifies    []Expr
 	ModifiesSrc []string
 	LoopInvs    map[int][]Clause
@@ -106,7 +107,7 @@ func newContracts() *Contracts {
 	return &Contracts{Funcs: map[string]*FuncContract{}, SpecFuncs: map[string]*SpecFunc{}, Lemmas: map[string]*Lemma{}, Ghosts: map[string]*GhostVar{}, FuncFields: map[string]string{}, OpaqueTys: map[string]bool{}, NonConsensusMapLoops: map[string]string{}}
 }
 
-var directiveKW = []string{"func", "invoke", "spec", "pred", "lemma", "axiom", "ghost", "requires", "ensures", "modifies", "loop", "panics_never", "may_panic", "inline", "trusted", "uses", "noreturn", "pure", "fresh_result", "funcfield", "sink", "opaque", "maploop", "at", "opaque_calls", "panic_only_when", "stable", "own_panics_never", "ghost_set"}
+var directiveKW = []string{"func", "invoke", "spec", "pred", "lemma", "axiom", "ghost", "requires", "ensures", "modifies", "loop", "panics_never", "may_panic", "inline", "trusted", "uses", "noreturn", "pure", "fresh_result", "funcfield", "sink", "opaque", "maploop", "at", "opaque_calls", "panic_only_when", "stable", "own_panics_never", "ghost_set", "assume_ensures"}
 
 type directive struct {
 	kw    string
@@ -364,17 +365,20 @@ func (c *Contracts) loadFile(path, pkgPath string, isLib bool) error {
 				return fail(fmt.Errorf("%s outside a func contract", d.kw))
 			}
 			switch d.kw {
-			case "requires", "ensures":
+			case "requires", "ensures", "assume_ensures":
 				label, body := splitLabel(d.rest)
 				e, err := parseExpr(body)
 				if err != nil {
 					return fail(err)
 				}
 				cl := Clause{label, e, body, d.where}
-				if d.kw == "requires" {
+				switch d.kw {
+				case "requires":
 					curF.Requires = append(curF.Requires, cl)
-				} else {
+				case "ensures":
 					curF.Ensures = append(curF.Ensures, cl)
+				default:
+					curF.AssumedEnsures = append(curF.AssumedEnsures, cl)
 				}
 			case "modifies":
 				if strings.TrimSpace(d.rest) == "nothing" {
